@@ -234,6 +234,9 @@ def correspondence(ctx):
 
 
 def replay(ctx, payload):
+    if payload.get("kind") == "coordinator_session":
+        from props import coordcommon as CC
+        return CC.replay_session(ctx, "C17", payload)
     impl = _impl()
     gd = impl[0]
     r = payload
